@@ -214,8 +214,10 @@ _R12 = {
     'C02': ' UNIT-RECORD: per-unit counters of XZWriter / LZIPWriter are advanced inside the loop that can close the unit, and a size the '
            'closer puts into the unit record comes from a counter that is reset per unit.',
     'C06': ' DIST-BELOW-FULL: LZDecoder::repeat reaches `pos - dist - 1` only under a guard that implies dist < full.',
-    'C07': ' PENDING-PAIR-DEC: the LZ decoder stores the distance of a pending match on every path on which it stores its remaining length.',
+    'C07': ' PENDING-PAIR-DEC: the LZ decoder stores the distance of a pending match on every path on which it stores its remaining length. '
+           'COPYOUT-BEFORE-OK: every Ok result of BCJReader::read is built behind the step that copies buffered bytes to the caller (or for an empty buffer only).',
     'C08': ' SIZE-FIELD-TWIN (see C01): the MT cutter takes the payload length from the header offsets at which the writer puts compressed - 1.',
+    'C09': ' WAIT-TARGET: the blocking drain loop of an MT writer\'s flush continues only while written < (a value of) the dispatch counter.',
     'C14': ' RC-NORM-TWIN (see C01): the assembly direct-bit decoder skips the normalisation with jae/jnb like the portable loop.',
     'C16': ' NORMALIZE-AT-END: LZMADecoder::decode builds every Ok result behind a RangeDecoder::normalize call. END-FLAG-GATES: in '
            'LZMAReader, LZMA2Reader and XZReader every source pull reachable from `read` is behind the false edge of a test of the end flag.',
